@@ -118,7 +118,7 @@ exec_op(const char * l, int ctx)
 		if (s->cookie != NULL) { s->kind = 1; s->state = 1; }
 		vt_begin("reg_imm"); vt_int("id", a); vt_int("prio", b); vt_bool("ok", s->cookie != NULL);
 		vt_int("ctx", ctx); common(); vt_end();
-	} else if (strcmp(op, "reg_timer") == 0) {
+	} else if (strcmp(op, "reg_timer") == 0 || strcmp(op, "reg_timer_cf") == 0) {
 		/* reg_timer SLOT SEC USEC */
 		struct slot * s;
 		struct timeval tv;
@@ -132,12 +132,16 @@ exec_op(const char * l, int ctx)
 			struct timeval * tvp = __real_malloc(sizeof(struct timeval));
 			tv.tv_sec = b; tv.tv_usec = c;
 			*tvp = tv;
+			/* "reg_timer_cf": the clock cannot be read while this registration is made */
+			if (strcmp(op, "reg_timer_cf") == 0) { fk_clockfail = 1; fk_clockfailed = 0; }
 			s->cookie = events_timer_register(callback, s, tvp);
+			fk_clockfail = 0;
 			tvp->tv_sec = 7; tvp->tv_usec = 7;
 			__real_free(tvp);
 		}
 		if (s->cookie != NULL) { s->kind = 3; s->state = 1; }
 		vt_begin("reg_timer"); vt_int("id", a); vt_int("ts", b); vt_int("tu", c); vt_bool("ok", s->cookie != NULL);
+		if (strcmp(op, "reg_timer_cf") == 0) { vt_int("cf", fk_clockfailed); fk_clockfailed = 0; }
 		FK_CLOCK("c", fk_clock_us); vt_int("ctx", ctx); common(); vt_end();
 	} else if (strcmp(op, "cancel_sock") == 0) {
 		/* cancel_sock FD R|W: legal whether or not something is registered (ENOENT) */
